@@ -288,6 +288,10 @@ func checkC07(w *World, r *Report) {
 						}
 					}
 					r.check(okSel, "C07.block", fn, "blocking select", x.Pos(), "also waits on <-ctx.Done() of the caller's context", "a blocking select does not wait on the caller's context: cancellation cannot interrupt it")
+					// nothing is locked while waiting: another caller would queue on the lock (which knows no context)
+					// for as long as this one waits
+					held := e.locks(fn).before[in]
+					r.check(len(held) == 0, "C07.block", fn, "locks held while waiting in a select", x.Pos(), "none", "lock(s) "+held.String()+" are held across a blocking wait: a second caller blocks on the lock until the first one's wait ends, whatever its own context says")
 				case *ssa.UnOp:
 					if x.Op == token.ARROW {
 						nb++
@@ -431,6 +435,10 @@ func hasNoCtxParam(fn *ssa.Function) bool {
 
 // ctxDeriveRule: every context handed to an evaluating call is derived from the caller's own context.
 func ctxDeriveRule(w *World, r *Report, e *Engine, m *evalModel, rule string) int {
+	registered := map[*ssa.Function]bool{}
+	for _, f := range w.registeredFuncs() {
+		registered[f] = true
+	}
 	nd := 0
 	extSig := w.ByPath[modPath+"/types"].Types.Scope().Lookup("ExternalCall").Type().Underlying().(*types.Signature)
 	for _, fn := range w.Funcs {
@@ -473,8 +481,10 @@ func ctxDeriveRule(w *World, r *Report, e *Engine, m *evalModel, rule string) in
 					r.ok(rule, fn, construct, in.Pos(), "the function's own context or a context.With* child of it")
 				case fnPkgPath(fn) == modPath+"/reader":
 					r.add(rule, fn, construct, in.Pos(), "exempt", "Go constructors «…» build data at read time; no lisp code runs under this context")
-				case hasNoCtxParam(fn):
+				case hasNoCtxParam(fn) && fn.Parent() == nil && !registered[fn]:
 					r.add(rule, fn, construct, in.Pos(), "exempt", "library loader without a context of its own (runs the embedded header once at load time)")
+				case hasNoCtxParam(fn):
+					r.bad(rule, fn, construct, in.Pos(), "a function value that programs can call (a registered builtin or a closure) evaluates under a context that is not the caller's: it takes no context parameter, so deadlines and cancellation do not reach what it evaluates")
 				default:
 					r.bad(rule, fn, construct, in.Pos(), "the context handed on is not derived from the caller's context: cancelling the caller does not reach this evaluation")
 				}
